@@ -15,12 +15,20 @@ vars == <<s, good, pv, phase>>
 
 EnumD == [k |-> "enum", name |-> "ns.ED", symbols |-> <<"A", "B", "C">>, hasdef |-> TRUE, def |-> "B"]
 
+(* unions whose branches are two named types of the same kind, inside collections: a bare item must be
+   written under the branch it belongs to, item by item *)
+Enum2 == [k |-> "enum", name |-> "ns.E2", symbols |-> <<"L", "M">>]
+UE2 == [k |-> "union", branches |-> <<EnumS("ns.E"), Enum2>>]
+UF2 == [k |-> "union", branches |-> <<FixedS("F2", 2), FixedS("ns.G1", 1)>>]
+UR2 == [k |-> "union", branches |-> <<RecS("ns.P", <<Fld("a", Prim("long"))>>), RecS("ns.Q", <<Fld("b", Prim("string"))>>), Prim("null")>>]
+SameKindUnions == Over({UE2, UF2, UR2}) \cup {RecS("ns.W", <<Fld("a", [k |-> "array", items |-> UE2])>>)}
+
 Schemas == IF Tier = "quick"
            THEN Leaves \cup Unions(CoreLeaves) \cup Special
                 \cup {RecS("ns.R", <<Fld("a", x)>>) : x \in Leaves}
                 \cup {RecS("R", <<Fld("a", [k |-> "union", branches |-> <<Prim("null"), x>>]), Fld("b", Prim("long"))>>) : x \in CoreLeaves \ {Prim("null")}}
-                \cup Over(CoreLeaves) \cup {EnumD, RecS("ns.R", <<Fld("a", EnumD)>>)}
-           ELSE {EnumD, RecS("ns.R", <<Fld("a", EnumD)>>)} \cup Leaves \cup Depth1 \cup Special \cup Depth2Sample
+                \cup Over(CoreLeaves) \cup {EnumD, RecS("ns.R", <<Fld("a", EnumD)>>)} \cup SameKindUnions
+           ELSE {EnumD, RecS("ns.R", <<Fld("a", EnumD)>>)} \cup SameKindUnions \cup Leaves \cup Depth1 \cup Special \cup Depth2Sample
                 \cup {RecS("R", <<Fld("a", [k |-> "union", branches |-> <<Prim("null"), x>>]), Fld("b", Prim("long"))>>) : x \in CoreLeaves \ {Prim("null")}}
 
 ValsOf(x) == Thin(IF x \in Special THEN ValsFuel(x, Defs(x), FALSE, 2) ELSE Vals(x, Defs(x), FALSE))
@@ -29,7 +37,7 @@ Rich(S) == LET R == {v \in S : (v.t = "array" => Len(v.items) > 0) /\ (v.t = "ma
            IF R = {} THEN S ELSE R
 
 Init == /\ s \in Schemas
-        /\ good \in Thin(Rich(IF s \in Special THEN ValsFuel(s, Defs(s), FALSE, 2) ELSE Vals(s, Defs(s), FALSE)))
+        /\ good \in (IF s \in SameKindUnions THEN Rich(Vals(s, Defs(s), FALSE)) ELSE {}) \cup Thin(Rich(IF s \in Special THEN ValsFuel(s, Defs(s), FALSE, 2) ELSE Vals(s, Defs(s), FALSE)))
         /\ pv = P("none", good) /\ phase = "start"
 
 Perturb == /\ phase = "start"
